@@ -311,3 +311,76 @@ def c01_drag_in_loop(ctx, carrier, step_ft, kw, altitude_ft, wind, K):
         ctx.reach('mach_rises')          # ... across a boundary between nearest table nodes
     if any(b < a for a, b in zip(ms, ms[1:])):
         ctx.reach('mach_falls')
+
+
+def _cfg_step_loop(tier):
+    K = 12 if tier == 'quick' else 24
+    plan = [('A', 100.0, dict(), 0.0, 'two'), ('A', 100.0, dict(look_deg=15.0), 0.0, 'head_then_tail'), ('B', 60.0, dict(), 0.0, 'tail_then_head'),
+            ('C', 200.0, dict(relative_deg=30.0), 3000.0, 'two_unsorted'), ('D', 20.0, dict(relative_deg=40.0), 0.0, 'tail_then_head')]
+    if tier == 'thorough':
+        plan += [('G', 20.0, dict(relative_deg=2.0), 0.0, 'two'), ('A', 0.5, dict(), 0.0, 'two')]
+    return [{'carrier': c, 'step_ft': s, 'kw': kw, 'altitude_ft': alt, 'wind': w, 'K': K} for (c, s, kw, alt, w) in plan]
+
+
+@harness('C01.step_in_loop', 'C01', configs=_cfg_step_loop, functions=FUNCS, cost=6, engine_opts={'div_check': False, 'nl_axioms_in_feasibility': False},
+         must_reach=['check:every_step_is_the_euler_step_of_the_stated_model', 'wind_changes', 'calm_after_last_segment'],
+         bounds='carriers A (two winds; inclined sight line with a head wind followed by a tail wind), B, C (30 deg from 3000 ft, winds given unsorted), D (lofted) with coarse steps, horizon K <= 12 / 24 steps, '
+                'symbolic range: EVERY integration step the real loop takes (states fed to the recorder) is recomputed from its start state with the stated model - real atmosphere at alt0 + y, '
+                'stateless drag table look-up at |v - w| / a, gravity, and the wind of the segment that contains the start of the step (calm air beyond the last segment) - '
+                'and must agree to 1e-9 relative',
+         outside=['shots other than the carriers: C01.step decides one step from an arbitrary state with arbitrary environment answers; this harness ties the real environment into it on carriers'])
+def c01_step_in_loop(ctx, carrier, step_ft, kw, altitude_ft, wind, K):
+    import math
+    from harness import carriers
+    p = pybc()
+    U = p.Unit
+    tc = tcmod()
+    calc, shot = carriers.make(carrier, step_ft, wind, altitude_ft=altitude_ft, config={'cMinimumVelocity': 0.0, 'cMaximumDrop': -1e9, 'cMinimumAltitude': -1e9}, **kw)
+    cosl = max(0.05, abs(math.cos(math.radians(kw.get('relative_deg', 0.0)))))
+    R = ctx.real('range_ft', 0.5, K * step_ft / 2 * 0.9 * cosl)
+    with carriers.spy_filter() as spy:
+        calc.fire(shot, U.Foot(R), U.Foot(step_ft))
+    # segments as the caller gave them (order of until-distance established here; the vector of each is the Wind's own - unit factors are C06's and the
+    # sign convention C12's subject)
+    segs = sorted(((float(wd.until_distance >> U.Foot), tuple(wd.vector)) for wd in shot.winds), key=lambda s: s[0])
+    pts = shot.ammo.dm.drag_table
+    curve, machs = tc.calculate_curve(pts), tc._get_only_mach_data(pts)
+    bc = shot.ammo.dm.BC
+    g = -32.17405
+    atmo = shot.atmo
+    ok, worst, bad = True, 0.0, None
+    changes = calm = 0
+    last_w = None
+    for k in range(len(spy) - 1):
+        s0, s1 = spy[k], spy[k + 1]
+        x, y, z = s0['p']
+        w = (0.0, 0.0, 0.0)
+        beyond = True
+        for (until, vec) in segs:
+            if until > x:
+                w = vec
+                beyond = False
+                break
+        if beyond and segs:
+            calm += 1
+        if last_w is not None and w != last_w:
+            changes += 1
+        last_w = w
+        dens, a = atmo.get_density_factor_and_mach_for_altitude(altitude_ft + y)
+        rel = tuple(s0['v'][i] - w[i] for i in range(3))
+        r = math.sqrt(sum(c * c for c in rel))
+        dt = (step_ft / 2) / max(1.0, r)
+        km = tc._calculate_by_curve_and_mach_list(machs, curve, r / a) * 2.08551e-04 / bc
+        drag = dens * r * km
+        v1 = tuple(s0['v'][i] - (rel[i] * drag - (g if i == 1 else 0.0)) * dt for i in range(3))
+        p1 = tuple(s0['p'][i] + v1[i] * dt for i in range(3))
+        err = max(max(abs(v1[i] - s1['v'][i]) for i in range(3)) / (1.0 + r), max(abs(p1[i] - s1['p'][i]) for i in range(3)) / (1.0 + abs(x)),
+                  abs(s0['t'] + dt - s1['t']) / (1e-3 + s1['t']), abs(s0['a'] - a) / a)
+        if err > worst:
+            worst, bad = err, k
+        ok = ok and err <= 1e-9
+    ctx.check('every_step_is_the_euler_step_of_the_stated_model', ok, info={'steps': len(spy) - 1, 'worst_relative_error': worst, 'at_step': bad})
+    if changes:
+        ctx.reach('wind_changes')
+    if calm:
+        ctx.reach('calm_after_last_segment')
